@@ -37,6 +37,37 @@ TEXT = {
             'One real agent with own transfers faces a peer that sends well-formed messages in the wrong state; checks that no callback escapes with an '
             'exception, listed message classes draw MSG_REJECT / SESS_TERM / close, no mixed data is delivered, own transfers complete and a later '
             'well-formed transfer is still processed.', '5/C17'),
+    'C03': ('fault_enumeration', 'E5 bp_net (source + MITM link + destination)', 'enumeration of single-bit corruption and field rewrites in flight, classified by an independent AAD / MAC construction',
+            'The real source applies BIBs through its transmit chain (or a foreign source built by ref/bpsec_cose.py covers other AAD scopes); every bit of a window '
+            'of the encoding and every listed field is altered in flight, with CRC fix-up so the change reaches the verifier; the reference decoder classifies each '
+            'altered copy as covered / surely-uncovered / other so the oracle is sound in both directions. No schedule or clock matters: the deciding dimension is the corruption fault.', '5/C03'),
+    'C05': ('exploration', 'E5 bp_net (source and relay roles, twin node without MTU)', 'seeded search over sizes x MTUs x block sets x policy; reference decoder tiles the fragments',
+            'Requests go through the real transmit chain (fragments leave by idle callbacks the scheduler interleaves); a twin node without MTU gives the unfragmented encoding; '
+            'every output is decoded independently and checked for size, tiling, identity fields, extension-block placement and CRCs.', '5/C05'),
+    'C06': ('exploration', 'E5 bp_net (destination role)', 'seeded search over fragmentations x arrival permutations, duplication and loss; interval-set model',
+            'Fragments produced by the reference fragmenter (uniform, uneven, overlapping) arrive permuted, duplicated and interleaved across 1-3 originals; after each arrival an '
+            'interval model says which originals are complete and the probe application must have seen exactly those, once, with the right payload and first-fragment blocks.', '5/C06'),
+    'C08': ('fault_enumeration', 'E5 bp_net', 'enumeration of single-bit flips and short bursts inside CRC-protected blocks; independent bitwise CRC',
+            'For each generated bundle every bit of a window (whole bundle when small) is flipped and the sequence corrupt copy / clean copy / duplicate is received by one agent; '
+            'a flip inside a CRC-protected block must leave no trace and the clean copy must then be processed exactly once; every transmitted bundle is re-decoded and its CRCs recomputed bitwise.', '5/C08'),
+    'C10': ('exploration', 'E5 bp_net', 'seeded search over routing tables x receive histories with repeats and look-alikes; seen-set + first-match model',
+            'A reference model (identity seen-set, own-source filter, administrative endpoint, first matching route) predicts for every reception the exact probe deliveries and forwards.', '5/C10'),
+    'C11': ('exploration', 'E5 bp_net (relay role, clock skew)', 'seeded search over block mixes, numbering, CRC types and relay clock; received vs transmitted bytes through the reference decoder',
+            'Sequences of 1-3 bundles are relayed by one node (state carried between bundles shows); the transmitted bytes are decoded independently and compared with the received encoding '
+            'field by field; the age is judged against the simulated relay clock.', '5/C11'),
+    'C12': ('exploration', 'E5 bp_net (destination + MITM)', 'seeded search over malformations of security blocks x key stores x acceptance; never-delivered / marked-deleted / keeps-working oracle',
+            'Malformed security blocks built by ref/bpsec_cose.py are followed by clean bundles; a bad bundle must never reach the probe application, must be marked deleted with a security reason '
+            '(also in the requested deletion report), and the next clean bundle must still be delivered with accepted blocks removed iff configured.', '5/C12'),
+    'C13': ('exploration', 'E6 dgram_pair (udpcl)', 'seeded search over lengths x MTUs with datagram drop / duplicate / reorder / delay on virtual time; reference datagram decoder + interval model',
+            'Two real UDPCL agents and a foreign reference peer exchange bundles over a simulated UDP network whose faults the chooser decides; pacing runs on the virtual clock; wire and receive queues are judged independently.', '5/C13'),
+    'C16': ('fault_enumeration', 'E5 bp_net (source + MITM link + destination)', 'as C03 for confidentiality blocks: enumeration of bit flips / field rewrites, independent AES-GCM + AAD',
+            'The real source encrypts through its transmit chain; the wire must hold ciphertext that the independent construction decrypts; every altered copy of ciphertext, tag, IV or '
+            'authenticated context, or a wrong key, must neither be delivered nor release plaintext.', '5/C16'),
+    'C19': ('exploration', 'E5 bp_net', 'seeded search over report flags x report-to x outcomes; reference status-report decoder',
+            'All flag combinations and outcomes (deliver, forward, forward with fragmentation, delete, no route, security failure, duplicate) are run; every administrative bundle leaving the node is decoded independently and matched to its subject.', '5/C19'),
+    'C20': ('exploration', 'E7 dgram_pair (btpu)', 'seeded search over lengths x MTUs with frame reorder / duplicate / delay (beyond the receive timeout) / drop; reference codec + repo codec round trip',
+            'Two real BTP-U agents and a foreign peer share a simulated Ethernet; every frame is decoded by the reference codec and by the repository codec and re-encoded; delivery is demanded when each segment '
+            'arrived once with gaps below the documented receive timeout.', '5/C20'),
 }
 NOTE = ('Trusted base: the simulator models of GLib dispatch, kernel TCP/UDP sockets, D-Bus and TLS (dsim/*, each small and self-tested), '
         'the independent reference codecs under ref/, and shims for third-party modules missing in the sandbox (listed per evidence file). '
@@ -67,7 +98,7 @@ def main():
                'interleaving can change bytes(Bundle(x)); deciding it is property-based testing, not simulation (DESIGN.md section 6)')]
     for prop in props:
         if prop['id'] not in have and prop['id'] != 'C02':
-            na.append(dict(property_id=prop['id'], reason='not claimed yet: check under construction in this session (see DESIGN.md section 5)'))
+            na.append(dict(property_id=prop['id'], reason='not claimed: no check built (see DESIGN.md)'))
     commits = subprocess.run(['git', '-C', '/repo', 'log', '--format=%H %s'], capture_output=True, text=True).stdout.splitlines()
     hooks = [line.split()[0] for line in commits if ' hook:' in line or line.split(' ', 1)[1].startswith('hook')]
     manifest = dict(
@@ -88,6 +119,10 @@ def main():
                  kind_free_text='one real tcpcl agent facing a harness-driven peer built on the independent RFC 9174 codec'),
             dict(name='E4 tcpcl_tls', path='scenarios/tcpcl_tls.py', serves_properties=['C15'],
                  kind_free_text='E1 plus TLS stub and real X.509 certificate fixtures'),
+            dict(name='E5 bp_net', path='scenarios/bp_net.py', serves_properties=['C03', 'C05', 'C06', 'C08', 'C10', 'C11', 'C12', 'C16', 'C19'],
+                 kind_free_text='1-3 real bp agents (all applications, probe app at order 29, simcl adaptor) with MITM-capable links and per-node clocks'),
+            dict(name='E6/E7 dgram_pair', path='scenarios/dgram_pair.py', serves_properties=['C13', 'C20', 'C18'],
+                 kind_free_text='two real udpcl or btpu agents plus a foreign reference peer on a simulated datagram network'),
         ],
         checks=checks,
         not_applicable=na,
